@@ -384,6 +384,85 @@ type c12Op struct {
 	run  func(x ap.Item, twin ap.Item) any
 }
 
+// c12LeafMethods calls every read-only method of the non-item leaf types found in the fields of x (language lists and their
+// entries, texts, tags, IRIs, media types, type names, nested Source / PublicKey / Endpoints): the marshalers, String/Format,
+// the observers. These are exported entry points of their own; a value reached through them must stay untouched as well.
+func c12LeafMethods(x ap.Item) string {
+	rv := reflect.ValueOf(x)
+	if rv.Kind() == reflect.Pointer {
+		if rv.IsNil() {
+			return ""
+		}
+		rv = rv.Elem()
+	}
+	if rv.Kind() != reflect.Struct {
+		return ""
+	}
+	var out strings.Builder
+	// every niladic read-only method the type has (value and pointer receivers)
+	names := []string{"MarshalJSON", "MarshalText", "MarshalBinary", "GobEncode", "String", "Count", "First", "MimeType", "URL"}
+	call := func(v reflect.Value) {
+		for _, recv := range []reflect.Value{v, addrOf(v)} {
+			if !recv.IsValid() {
+				continue
+			}
+			for _, nm := range names {
+				m := recv.MethodByName(nm)
+				if !m.IsValid() || m.Type().NumIn() != 0 {
+					continue
+				}
+				for _, r := range m.Call(nil) {
+					fmt.Fprintf(&out, "%v;", r.Interface())
+				}
+			}
+		}
+		fmt.Fprintf(&out, "%s|%v|%q;", v.Interface(), v.Interface(), v.Interface())
+	}
+	nlv := func(v reflect.Value) {
+		call(v)
+		n := v.Interface().(ap.NaturalLanguageValues)
+		fmt.Fprintf(&out, "%v;", n.Equals(n))
+		for i := 0; i < v.Len(); i++ {
+			e := v.Index(i)
+			call(e)
+			call(e.FieldByName("Value"))
+			call(e.FieldByName("Ref"))
+			out.Write(n.Get(n[i].Ref))
+			fmt.Fprintf(&out, "%v;", n[i].Value.Equals(n[i].Value))
+		}
+	}
+	for i := 0; i < rv.NumField(); i++ {
+		f := rv.Field(i)
+		switch v := f.Interface().(type) {
+		case ap.NaturalLanguageValues:
+			nlv(f)
+		case ap.Source:
+			call(f)
+			nlv(f.FieldByName("Content"))
+			call(f.FieldByName("MediaType"))
+		case ap.PublicKey:
+			call(f)
+		case *ap.Endpoints:
+			if v != nil {
+				call(f)
+			}
+		case ap.IRI:
+			call(f)
+			fmt.Fprintf(&out, "%v;", v.Equals(v, true))
+		case ap.MimeType, ap.ActivityVocabularyType, ap.LangRef:
+			call(f)
+		}
+	}
+	return out.String()
+}
+
+func addrOf(v reflect.Value) reflect.Value {
+	if v.CanAddr() {
+		return v.Addr()
+	}
+	return reflect.Value{}
+}
+
 func c12Ops() []c12Op {
 	ro := func(any) error { return nil }
 	_ = ro
@@ -411,6 +490,7 @@ func c12Ops() []c12Op {
 			}
 			return nil
 		}},
+		{"leaf-methods", func(x, _ ap.Item) any { return c12LeafMethods(x) }},
 		{"ItemsEqual(x,twin)", func(x, tw ap.Item) any { return ap.ItemsEqual(x, tw) }},
 		{"ItemsEqual(twin,x)", func(x, tw ap.Item) any { return ap.ItemsEqual(tw, x) }},
 		{"ItemsEqual(x,x)", func(x, _ ap.Item) any { return ap.ItemsEqual(x, x) }},
